@@ -1,9 +1,9 @@
 package node
 
 import (
-	"os"
 	"fmt"
 	"math/rand"
+	"os"
 	"sort"
 	"strings"
 	"time"
@@ -51,14 +51,15 @@ func genC12(rng *rand.Rand, tier string) *core.Plan {
 	}
 	p.Ops = append(p.Ops, core.Op{K: "query", S: fmt.Sprint(rng.Intn(1 << 30)), A: int64(rng.Intn(1 << 20))})
 	p.Cfg["maporder"] = rng.Intn(2) // tape-chosen iteration order of Go maps in the code under test
+	core.GenZone(p, rng.Intn)       // the node's local time zone
 	p.Cfg["families"] = 1 + rng.Intn(2)
 	p.Cfg["fieldmodes"] = rng.Intn(2)
 	p.Cfg["route"] = rng.Intn(2) // the rows find their shard and family through lindb's broker-side routing
 	p.Cfg["multi"] = rng.Intn(2) // statements may select two columns
 	p.Cfg["failleaf"] = rng.Intn(2)
-	p.Cfg["fx"] = rng.Intn(2) // histograms; rate, arithmetic, quantile, functions on last / first fields
-	p.Cfg["bigbatch"] = rng.Intn(2) // batches of up to 48 rows
-	p.Cfg["nodes"] = rng.Intn(2) // the shards also live on 2..k storage nodes with metadata (ids) of their own
+	p.Cfg["fx"] = rng.Intn(2)         // histograms; rate, arithmetic, quantile, functions on last / first fields
+	p.Cfg["bigbatch"] = rng.Intn(2)   // batches of up to 48 rows
+	p.Cfg["nodes"] = rng.Intn(2)      // the shards also live on 2..k storage nodes with metadata (ids) of their own
 	p.Cfg["realmgr"] = rng.Intn(2)    // responses are received by lindb's own task manager on a real worker pool
 	p.Cfg["mgrworkers"] = rng.Intn(3) // 1-3 workers
 	return p
@@ -444,4 +445,3 @@ func diffResult(q queryDef, a, b *commonmodels.ResultSet, values bool) string {
 	}
 	return ""
 }
-
